@@ -1453,3 +1453,153 @@ def compiled_native(source):
     if source not in _NATIVE_COMPILED:
         _NATIVE_COMPILED[source] = driver.NATIVE.run('compile_text', [dict(case={}, inputs=dict(source=source, optimize=False))])[0]
     return _NATIVE_COMPILED[source]
+
+
+# ---------------------------------------------------------------- C10: ill-scoped programs are rejected
+# One identifier byte of the program text ('?') is symbolic over 'A'..'Z'.  `bound` lists the letters for which the
+# program is well scoped (by the language's scope rules, written down here, not observed); for every other letter
+# the program has the named defect and must be rejected with an error that names the identifier.
+C10_TEMPLATES = [
+    ('unbound_in_defun', 'strict21', '(mod (X) {S} (defun F (A B) (+ A ?)) (F X 1))', 'ABF', 'ABFXQ',
+     'a defun body sees its own parameters and the program\'s functions, not the mod parameters'),
+    ('unbound_in_let', 'strict21', '(mod (X Y) {S} (let ((A (+ X 1))) (* A ?)))', 'AXY', 'AXYQ',
+     'a let body sees the let binding and the enclosing parameters'),
+    ('unbound_in_inline', 'strict21', '(mod (X) {S} (defun-inline G (P) (+ P ?)) (defun H (A) (G A)) (H X))', 'PGH', 'PGHAXQ',
+     'an inline body sees its own parameters and the program\'s functions, not its caller\'s variables'),
+    ('duplicate_defun', 'cl21', '(mod (X) {S} (defun F (A) (+ A 1)) (defun ? (B) (* B 2)) (F X))', 'ABCDEGHIJKLMNOPQRSTUVWXYZ', 'FGQ',
+     'two functions may not share a name'),
+    ('duplicate_inline', 'cl21', '(mod (X) {S} (defun-inline F (A) (+ A 1)) (defun ? (B) (* B 2)) (F X))', 'ABCDEGHIJKLMNOPQRSTUVWXYZ', 'FGQ',
+     'an inline and a function may not share a name'),
+    ('inline_recursion', 'strict21', '(mod (X) {S} (defun H (A) (+ A 1)) (defun-inline F (A) (? A)) (defun-inline G (A) (F A)) (G X))', 'HA', 'FGHAX',
+     'inline functions may not call themselves, directly (F) or through each other (G)'),
+]
+C10_SIGILS = {'strict21': '(include *strict-cl-21*)', 'cl21': '(include *standard-cl-21*)', 'cl23': '(include *standard-cl-23*)'}
+
+
+class IllScopedRejected(Harness):
+    name = 'ill_scoped_rejected'
+    prop = 'C10'
+    kernel = 'compile_text'
+    with_clvmr = True
+    loop_bound = 200000
+    max_paths = 64
+    bigw = {'quick': 264, 'thorough': 264}
+    functions = CompileRun.functions[:6]
+    ALSO_NAMES = {'inline_recursion': 'FG'}
+    classes = {'inline_body_head_resolves_in_caller': lambda case, inp: z3.BoolVal(case['t'] == 'inline_recursion' and case['v'] == 'X')}
+    assumptions = ['the program text is one of the stated templates with ONE identifier byte symbolic over A..Z (everything else concrete); the whole compilation is executed from MIR once per class of that byte',
+                   'which letters make the program well scoped is written down per template from the language\'s scope rules (harness/pipeline.py::C10_TEMPLATES), not observed from the compiler',
+                   'cases are sharded by candidate letter / "any other letter"; the last class is decided for all remaining letters at once']
+    outside = 'programs other than the templates; defects in more than one place; termination beyond the loop bound (a compilation that does not finish ends as `bound`, not as a pass); assign cycles (cl23 compilations cost minutes each: thorough tier only)'
+
+    def templates(self, tier):
+        out = list(C10_TEMPLATES)
+        if tier == 'thorough':
+            out.append(('assign_cycle', 'cl23', '(mod (X) {S} (defun K (P) (assign A (+ ? 1) B (+ A 1) (list A B))) (K X))', 'PK', 'ABP',
+                        'an assign binding may not depend on itself, directly (A) or through another binding (B)'))
+            out.append(('assign_duplicate', 'cl23', '(mod (X) {S} (defun K (P) (assign A (+ P 1) ? (+ P 2) (list A P))) (K X))', 'BCDEFGHIJLMNOQRSTUVWXYZ', 'ABP',
+                        'an assign form may not bind a name twice (A) or re-bind through a cycle'))
+        return out
+
+    def cases(self, tier):
+        for name, sig, src, bound, cands, why in self.templates(tier):
+            for c in cands:
+                yield dict(t=name, v=c)
+            yield dict(t=name, v='other')
+
+    def tmpl(self, case):
+        for row in self.templates('thorough'):
+            if row[0] == case['t']:
+                return row
+        raise KeyError(case['t'])
+
+    def sym_inputs(self, case):
+        return dict(v=Int(z3.BitVec('v', 8), 8, False))
+
+    def conc_inputs(self, case, j):
+        return dict(v=mkint(j['v'], 'u8'))
+
+    def inputs_json(self, case, inp, model):
+        return dict(v=ev(model, inp['v'].e))
+
+    def run(self, eng, case, inp):
+        name, sig, src, bound, cands, why = self.tmpl(case)
+        v = inp['v']
+        if v.c is None:
+            eng.assume(z3.And(z3.UGE(v.e, 0x41), z3.ULE(v.e, 0x5a)))
+            if case['v'] == 'other':
+                eng.assume(z3.And(*[v.e != ord(c) for c in cands]))
+            else:
+                eng.assume(v.e == ord(case['v']))
+        text = src.replace('{S}', C10_SIGILS[sig])
+        eng.env['tls'] = tls(True)
+        eng.env['exact_fmt'] = True
+        alloc = Ref(Cell(Struct('Allocator', [])))
+        fname = slice_of(conc_bytes(list(b'*t*')))
+        opts = eng.call('DefaultCompilerOpts::new', [fname])
+        symtab = Cell(eng.call('HashMap::<String, String>::new', []))
+        bs = [v if ch == ord('?') else mkint(ch, 'u8') for ch in text.encode()]
+        r = eng.call('clvmc::compile_clvm_text_maybe_opt', [alloc, mkbool(False), Cell(opts, 'rc'), Ref(symtab), slice_of(bs), fname, mkbool(True)])
+        out = dict(ok=r.variant == 'Ok', msg=None)
+        if r.variant != 'Ok':
+            out['msg'] = self.message_items(eng, r.fields[0])
+        return out
+
+    @staticmethod
+    def message_items(eng, err):
+        """byte terms of the text of a CompileError / CompileErr / EvalErr value"""
+        found = []
+
+        def walk(x, depth=0):
+            if depth > 6:
+                return
+            if isinstance(x, Cell):
+                x = x.v
+            if isinstance(x, Vec) and x.items and all(isinstance(b, Int) and b.w == 8 for b in x.items):
+                found.append(x.items)
+            elif isinstance(x, (Struct, Enum)):
+                for f_ in x.fields:
+                    walk(f_, depth + 1)
+        walk(err)
+        return found
+
+    def obligations(self, eng, case, inp, out):
+        name, sig, src, bound, cands, why = self.tmpl(case)
+        v = inp['v'].e
+        well_scoped = z3.Or(*[v == ord(c) for c in bound])
+        if out['ok']:
+            return [('code_is_emitted_only_for_a_well_scoped_program', well_scoped)]
+        # rejected: fine either way for the property's first clause; when the program has the defect the message must name it
+        texts = [t for t in out['msg'] if len(t) >= 3]
+        # for a cycle of inline functions any function on the cycle is "the offending identifier"
+        also = [ord(c) for c in self.ALSO_NAMES.get(name, '')]
+        names_it = z3.Or(*[z3.Or(b.e == v, *[b.e == a for a in also]) for t in texts for b in t]) if texts else z3.BoolVal(False)
+        return [('the_error_names_the_identifier', z3.Or(well_scoped, names_it))]
+
+    def output_json(self, eng, case, inp, out, model):
+        return dict(ok=out['ok'], msg=[''.join(chr(ev(model, b.e)) for b in t) for t in (out['msg'] or []) if len(t) >= 3][-1:] if not out['ok'] else None)
+
+    def native_inputs(self, case, j):
+        name, sig, src, bound, cands, why = self.tmpl(case)
+        return dict(source=src.replace('{S}', C10_SIGILS[sig]).replace('?', chr(j['v'])), optimize=False)
+
+    def native_matches(self, case, j, native, predicted):
+        return (native.get('compiled') is not None) == bool(predicted and predicted.get('ok'))
+
+    def is_violation(self, case, j, native):
+        name, sig, src, bound, cands, why = self.tmpl(case)
+        ok = native.get('compiled') is not None
+        if ok:
+            return chr(j['v']) not in bound
+        msg = native.get('compile_err') or ''
+        return chr(j['v']) not in bound and chr(j['v']) not in msg and not any(c in msg for c in self.ALSO_NAMES.get(name, ''))
+
+    def oracle(self, case, j):
+        name, sig, src, bound, cands, why = self.tmpl(case)
+        return 'well scoped exactly for %s: %s' % (','.join(bound) if len(bound) < 10 else 'every letter except ' + ','.join(sorted(set('ABCDEFGHIJKLMNOPQRSTUVWXYZ') - set(bound))), why)
+
+    def witness_classes(self, case, inp, out):
+        return [('accepted', z3.BoolVal(out['ok'])), ('rejected', z3.BoolVal(not out['ok']))]
+
+    def required_witnesses(self, tier):
+        return ['accepted', 'rejected']
